@@ -2,7 +2,7 @@ SPECIFICATION Spec
 CONSTANTS
   BinBytes = {0, 171, 255}
   BinMax = 3
-  HexChars = {48, 102, 70, 103, 32}
+  HexChars = {48, 102, 70, 103}
   HexMax = 4
 INVARIANTS BinSized HexSized RoundTrip PairsBound NFits
 CONSTRAINT Emit
